@@ -25,6 +25,15 @@ def elem(I, ref, o, idx: VInt):
     """element at a (normalised, in range) index"""
     key = idx.c if idx.c is not None else ("t", tid(idx.as_int()))
     e = o.meta["elems"].get(key)
+    if e is None and o.meta["elems"]:
+        # the same position under another name: an index that provably equals the index of a known element denotes that element
+        for k2, (e2, idx2) in list(o.meta["elems"].items()):
+            if idx.c is not None and idx2.c is not None:
+                continue
+            if I.path.known(idx.as_int() == idx2.as_int()):
+                e = (e2, idx2)
+                o.meta["elems"][key] = e
+                break
     if e is None and o.meta["elem_type"] == "concat":
         for (start, n, p) in o.meta["segs"]:
             rel = ops._arith(I, "-", idx, start)
